@@ -66,17 +66,30 @@ def run(ctx):
              (CFG + "dipoles/cell_bounded.ini", 1.7), (CFG + "water/single_molecule.ini", 2.1),
              (CFG + "dipoles/dipole_motion.ini", 2.3), (CFG + "coulomb_atoms/cell_bounded.ini", 1.3),
              (CFG + "water/coulomb_power_bounded_lj_cell_bounded.ini", 0.8), (CFG + "dipoles/dipole_factors_ratio.ini", 2.9)]
+    # dense cell systems (several atoms per cell): nearby-cell iteration order matters for the random stream
+    dense = [(CFG + "coulomb_atoms/cell_bounded.ini", 0.8, {"RandomInputHandler": {"number_of_root_nodes": 8},
+                                                             "CuboidPeriodicCells": {"cells_per_side": "3, 3, 3"},
+                                                             "CoulombNearby": {"number_event_handlers": 10},
+                                                             "CoulombSurplus": {"number_event_handlers": 10},
+                                                             "CoulombCellBounding": {"number_event_handlers": 10}})]
+    # exactly simultaneous candidate events (sampling interval = chain time, end time a common multiple): the order in which the
+    # resumed scheduler serves ties must be the order of the uninterrupted one (the heap layout is part of what is pickled)
+    ties = [(CFG + "coulomb_atoms/power_bounded_dump.ini", 2.0, {"FixedIntervalSamplingEventHandler": {"sampling_interval": 0.5},
+                                                                  "SingleIndependentActivePeriodicDirectionEndOfChainEventHandler": {"chain_time": 0.5},
+                                                                  "RandomInputHandler": {"number_of_root_nodes": 4},
+                                                                  "Coulomb": {"number_event_handlers": 4}})]
     if ctx.quick:
         bases = bases[:2] + [rng.choice(bases[2:])]
+    bases = [b if len(b) == 3 else (b[0], b[1], {}) for b in bases + dense + ties]
     work = tempfile.mkdtemp(prefix="jfdumps_", dir=os.path.dirname(ctx.root))
     try:
         jobsA, jobsC = [], []
-        for n, (ini, t_end_scale) in enumerate(bases):
+        for n, (ini, t_end_scale, extra_ov) in enumerate(bases):
             for sched in (["heap_scheduler", "list_scheduler"] if not ctx.quick else [rng.choice(["heap_scheduler", "list_scheduler"])] if n else ["heap_scheduler", "list_scheduler"]):
                 seed = ctx.seed * 1000 + n
                 t_end = round(t_end_scale * rng.choice([3, 4, 5]), 3)
                 interval = round(t_end / rng.choice([3.3, 4.7, 6.1]), 4)
-                common = {"FinalTimeEndOfRunEventHandler": {"end_of_run_time": t_end}, "SingleProcessMediator": {"scheduler": sched}}
+                common = merge({"FinalTimeEndOfRunEventHandler": {"end_of_run_time": t_end}, "SingleProcessMediator": {"scheduler": sched}}, extra_ov)
                 dd = os.path.join(work, f"A{len(jobsA)}")
                 os.makedirs(dd)
                 ovA = merge(common, dumping_overrides(ctx.root, ini, interval))
